@@ -75,6 +75,21 @@ def lanczos_tridiag(
     )
     t_mat = torch.zeros(num_iter, num_iter, *batch_shape, num_init_vecs, dtype=dtype, device=device)
 
+    def _restart(r_vec, dead, num_prev):
+        # A batch member / start vector whose residual is at rounding level has exhausted its Krylov space (its start
+        # vector lies in an invariant subspace). Normalising that rounding noise would give a direction that is not
+        # orthogonal to the basis. Restart it - and only it - with a random direction orthogonal to its current basis
+        # (coefficient beta = 0), so that the other members keep iterating and Q^T A Q = T still holds; if its basis
+        # is already complete, its remaining vectors are zero.
+        fresh = torch.randn_like(r_vec)
+        for _ in range(2):
+            correction = fresh.unsqueeze(0).mul(q_mat[:num_prev]).sum(dim_dimension, keepdim=True)
+            fresh = fresh - q_mat[:num_prev].mul(correction).sum(0)
+        fresh_norm = torch.norm(fresh, 2, dim=dim_dimension, keepdim=True)
+        complete = fresh_norm <= 1e-6
+        fresh = fresh.div(fresh_norm.masked_fill(complete, 1)).masked_fill(complete, 0)
+        return torch.where(dead, fresh, r_vec)
+
     # Begin algorithm
     # Initial Q vector: q_0_vec
     q_0_vec = init_vecs / torch.norm(init_vecs, 2, dim=dim_dimension).unsqueeze(dim_dimension)
@@ -96,8 +111,15 @@ def lanczos_tridiag(
         t_mat[1, 0].copy_(beta_0)
 
         # Compute the first new vector
-        # (on an exact breakdown - the initial vector is an eigenvector - the residual is zero and stays zero)
-        q_mat[1].copy_(r_vec.div_(beta_0.masked_fill(beta_0 == 0, 1).unsqueeze(dim_dimension)))
+        dead = (beta_0.abs() <= 1e-6).unsqueeze(dim_dimension)
+        r_vec.div_(beta_0.unsqueeze(dim_dimension).masked_fill(dead, 1))
+        if dead.any() and not dead.all():
+            # (the start vector of some member is an eigenvector, see _restart)
+            beta_0 = beta_0.masked_fill(dead.squeeze(dim_dimension), 0)
+            t_mat[0, 1].copy_(beta_0)
+            t_mat[1, 0].copy_(beta_0)
+            r_vec = _restart(r_vec, dead, 1)
+        q_mat[1].copy_(r_vec)
         if torch.sum(beta_0.abs() > 1e-6) == 0:
             # The Krylov space is one-dimensional: we are done
             num_iter = 1
@@ -124,10 +146,15 @@ def lanczos_tridiag(
             correction = q_mat[: k + 1].mul(correction).sum(0)
             r_vec.sub_(correction)
             r_vec_norm = torch.norm(r_vec, 2, dim=dim_dimension, keepdim=True)
-            r_vec.div_(r_vec_norm.masked_fill(r_vec_norm == 0, 1))
+            dead = r_vec_norm <= 1e-6
+            r_vec.div_(r_vec_norm.masked_fill(dead, 1))
+            if dead.any() and not dead.all():
+                # (some member has exhausted its Krylov space while others have not, see _restart)
+                r_vec_norm = r_vec_norm.masked_fill(dead, 0)
+                r_vec = _restart(r_vec, dead, k + 1)
 
             # Get next beta value
-            beta_curr = r_vec_norm.squeeze_(dim_dimension)
+            beta_curr = r_vec_norm.squeeze(dim_dimension)
             # Update t_mat with new beta value
             t_mat[k, k + 1].copy_(beta_curr)
             t_mat[k + 1, k].copy_(beta_curr)
